@@ -491,6 +491,18 @@ impl TokenParser {
         } else {
             let mut trg = Vec::new();
             self.compute_ff_bytes_to(&mut trg);
+            // Bytes forced earlier (via force_bytes()) may start with a special token,
+            // encoded as \xFF[id]; no token spells these bytes, so force the token by mask,
+            // like the canonical path above does.
+            if trg.first() == Some(&toktrie::TokTrie::SPECIAL_TOKEN_MARKER) {
+                if let Some((_, t)) = toktrie::parse_numeric_token(&trg[1..]) {
+                    if (t as usize) < self.tok_trie().vocab_size() {
+                        let mask = self.tok_trie().singleton_token_set(t);
+                        self.last_step_stats = ParserStats::default();
+                        return Ok(mask);
+                    }
+                }
+            }
             trg
         };
 
